@@ -43,31 +43,58 @@ Definition gives_up_with (o : option rmw_outcome) (recd : list (Z * Z)) : bool :
   | Some (NoCommit _ xs) | Some (Restart xs) => ops_match (aops_word xs) recd
   | _ => false
   end.
-(* search of the parameter space: the checker passes one list of admissible values per parameter (in the order dqstate_apply
-   wants them); the product is formed here, so a case costs the sum of the axis lengths to write down and parse, not
-   their product *)
-Fixpoint ex_prod (axes : list (list Z)) (acc : list Z) (good : list Z -> bool) : bool :=
+(* A parameter axis: literal admissible values, or EVERY value the C code can pass as `owned` for a queue of one of the
+   widths ws (lib/lanewords.py owned_ok is the same predicate, used there to filter proposals; this is the authority):
+     i*IN_BARRIER + k*WIDTH_INTERVAL (k <= w)  -  {0, PENDING_BARRIER + (w-1)*WIDTH_INTERVAL}  +  {0, ENQUEUED, ENQUEUED_ON_MGR}
+   with the constants passed by the checker from the compiler (harness/c01_lanewords_wb.c). The ~12*(w+1) values are never
+   built as a list (that overflowed the VM stack at w = 4094): a tail-recursive loop tests them one by one, from both ends of
+   the range inwards (k = w, 0, w-1, 1, ...: a drainer holds nearly all of the width or nearly none), and stops at the first
+   that fits; only a case with no admissible value walks the whole range (~20 s at w = 4094). *)
+Inductive axis :=
+| Lit (values : list Z)
+| Owned (ib wi pb enq enq_mgr : Z) (ws : list Z).
+
+Fixpoint owned_loop (fuel : nat) (lo hi : Z) (test : Z -> bool) : bool :=
+  match fuel with
+  | O => false
+  | S m => if hi <? lo then false
+           else if test hi then true
+           else if test lo then true
+           else owned_loop m (lo + 1) (hi - 1) test
+  end.
+Definition ex_owned (ib wi pb enq enq_mgr : Z) (ws : list Z) (good : Z -> bool) : bool :=
+  existsb (fun w =>
+    owned_loop (Z.to_nat (w + 2)) 0 w (fun k =>
+      existsb (fun i => existsb (fun r => existsb (fun e => good (u64 (i * ib + k * wi - r + e))) [0; enq; enq_mgr])
+                                [0; pb + (w - 1) * wi]) [0; 1])) ws.
+
+(* search of the parameter space: the checker passes one axis per parameter (in the order dqstate_apply wants them); the
+   product is formed here, so a case costs the sum of the axis lengths to write down and parse, not their product *)
+Fixpoint ex_prod (axes : list axis) (acc : list Z) (good : list Z -> bool) : bool :=
   match axes with
   | [] => good (rev acc)
-  | a :: r => existsb (fun x => ex_prod r (x :: acc) good) a
+  | Lit a :: r => existsb (fun x => ex_prod r (x :: acc) good) a
+  | Owned ib wi pb enq enq_mgr ws :: r => ex_owned ib wi pb enq enq_mgr ws (fun x => ex_prod r (x :: acc) good)
   end.
-Definition fits (fn : Z) (axes : list (list Z)) (old : Z) : bool :=
-  match dqstate_apply fn (map (fun a => hd 0 a) axes) old with Some _ => true | None => false end.
+Definition first_of (a : axis) : Z := match a with Lit l => hd 0 l | Owned _ _ _ _ _ _ => 0 end.
+Definition is_empty (a : axis) : bool := match a with Lit [] => true | Owned _ _ _ _ _ [] => true | _ => false end.
+Definition fits (fn : Z) (axes : list axis) (old : Z) : bool :=
+  match dqstate_apply fn (map first_of axes) old with Some _ => true | None => false end.
 
 (* verdicts: 0 no generated function for this line and kind (coverage hole); 1 conforms; 2 a function exists but no
    admissible parameter vector makes it produce the recorded result; 3 the number of parameters does not fit the function
    (table and checker disagree); 4 a parameter has no admissible value at all (empty axis) *)
-Definition verdict (fns : list Z) (axes : list (list Z)) (old : Z) (good : option rmw_outcome -> bool) : Z :=
+Definition verdict (fns : list Z) (axes : list axis) (old : Z) (good : option rmw_outcome -> bool) : Z :=
   match fns with
   | [] => 0
-  | _ => if existsb (fun a => match a with [] => true | _ => false end) axes then 4
+  | _ => if existsb is_empty axes then 4
          else if existsb (fun fn => ex_prod axes [] (fun ps => good (dqstate_apply fn ps old))) fns then 1
          else if existsb (fun fn => fits fn axes old) fns then 2 else 3
   end.
 
 (* one iteration that reached its compare-and-swap / one single atomic operation: old -> new *)
-Definition check_commit (file line kind old new : Z) (axes : list (list Z)) : Z :=
+Definition check_commit (file line kind old new : Z) (axes : list axis) : Z :=
   verdict (site_fns file line kind) axes old (fun o => commits_to o new).
 (* one loop instance left without a store after reading old, having performed recd on dq_state on the way out *)
-Definition check_giveup (file line kind old : Z) (recd : list (Z * Z)) (axes : list (list Z)) : Z :=
+Definition check_giveup (file line kind old : Z) (recd : list (Z * Z)) (axes : list axis) : Z :=
   verdict (site_fns file line kind) axes old (fun o => gives_up_with o recd).
